@@ -134,3 +134,154 @@ def refute_search(mod, proof, violations, ix, workdir, seed):
 
 
 refuters = {p.name: refute_search for p in proofs}
+
+
+# ---------------------------------------------------------------------------------------------
+# TemporalMetricStorage::buildMetrics (sdk/src/metrics/state/temporal_metric_storage.cc), the two merge steps the conservation argument rests on:
+# (1) the deltas stashed for a collector since its last collection are merged into ONE map: a series that is already in the merged map is
+#     accumulated (existing.Merge(delta)), a new one starts from a fresh neutral aggregation - so several stashed deltas add up;
+# (2) for a cumulative reader the previously reported totals are merged in the same way.
+# Each step is a callback handed to AttributesHashMap::GetAllEnteries; the callback is put under contract for one delivered (attributes,
+# aggregation) pair and an arbitrary state of the merged map (inductive step); slices of the real buildMetrics body carry the callbacks.
+TU_TMS = ("tu_temporal_storage", '#include "%s/sdk/src/metrics/state/temporal_metric_storage.cc"\n' % R.core.REPO)
+TMS_PRE = r"""
+size_t g_k;
+typedef struct xc_aggr { unsigned long id; } xc_aggr;
+typedef struct xc_ahm { char xc_unused; } xc_ahm;
+typedef struct xc_ahm_list { xc_ahm **items; size_t count; } xc_ahm_list;      /* std::list<std::shared_ptr<AttributesHashMap>> as a sequence */
+unsigned long g_get_calls, g_set_calls, g_merge_calls, g_create_calls, g_enum_calls, g_cb_calls, g_new_map_calls;
+const void *g_get_map, *g_get_key, *g_set_map, *g_set_key, *g_enum_map; xc_aggr *g_get_ret, *g_set_val, *g_merge_self, *g_merge_arg, *g_merge_ret, *g_create_ret;
+int g_get_present;
+const void *g_cb_attrs; xc_aggr g_cb_aggr_obj;
+static void xc_havoc_ghosts(void) { size_t a; int p; g_k = a; g_get_present = p; g_get_calls = g_set_calls = g_merge_calls = g_create_calls = g_enum_calls = g_cb_calls = g_new_map_calls = 0;
+  g_get_map = g_get_key = g_set_map = g_set_key = g_enum_map = 0; g_get_ret = g_set_val = g_merge_self = g_merge_arg = g_merge_ret = g_create_ret = 0; }
+#define TMS_GHOSTS g_get_calls, g_set_calls, g_merge_calls, g_create_calls, g_get_map, g_get_key, g_set_map, g_set_key, g_get_ret, g_set_val, g_merge_self, g_merge_arg, g_merge_ret, g_create_ret
+"""
+TMS_POST = r"""
+typedef struct xc_last_reported { xc_ahm *attributes_map; SystemTimestamp collection_ts; } xc_last_reported;      /* LastReportedMetrics */
+static xc_aggr xc_o_get, xc_o_merge, xc_o_create; static xc_ahm xc_o_map; static xc_last_reported xc_o_last;
+static xc_aggr *xc_ahm_Get(const xc_ahm *m, const void *key) { g_get_calls++; g_get_map = m; g_get_key = key; g_get_ret = g_get_present ? &xc_o_get : NULL; return g_get_ret; }
+static void xc_ahm_Set(xc_ahm *m, const void *key, xc_aggr *v) { g_set_calls++; g_set_map = m; g_set_key = key; g_set_val = v; }
+static xc_aggr *xc_Merge(xc_aggr *self, const xc_aggr *other) { g_merge_calls++; g_merge_self = self; g_merge_arg = (xc_aggr *)other; g_merge_ret = &xc_o_merge; return g_merge_ret; }
+static xc_aggr *xc_CreateAggregation(void) { g_create_calls++; g_create_ret = &xc_o_create; return g_create_ret; }
+static xc_ahm *xc_new_ahm(void) { g_new_map_calls++; return &xc_o_map; }
+static xc_last_reported *xc_last_reported_of(void) { return &xc_o_last; }
+"""
+
+
+def _tms_types(em, base, targs, name):
+    if base in ("std::unique_ptr", "std::shared_ptr") and targs:
+        last = targs[0].strip().split("::")[-1]
+        if last == "Aggregation":
+            return CT_("xc_aggr", 1)
+        if last.startswith("AttributesHashMap"):
+            return CT_("xc_ahm", 1)
+    if base == "std::list":
+        return CT_("xc_ahm_list")
+    return None
+
+
+from ..xc.emit import CT as CT_
+
+
+def _tms_enum(em, node, recv, args):
+    lam = em._find_lambda(args[0])
+    if lam is None:
+        raise common.ExtractionError("GetAllEnteries without a lambda argument")
+    li = em.lambda_info(lam, None)
+    caps = [em.capture_arg(c) for c in li["captures"]]
+    r = recv["node"] if isinstance(recv, dict) and recv.get("xc_is_ptr") else recv
+    em.report["AttributesHashMap::GetAllEnteries(callback) -> one callback invocation on an arbitrary entry (inductive step)"] += 1
+    return "(g_enum_calls++, g_enum_map = (const void *)(%s), g_cb_calls++, %s(%s))" % (em.expr(r), li["cname"], ", ".join(caps + ["g_cb_attrs", "&g_cb_aggr_obj"]))
+
+
+def _configure_tms(cfg):
+    common.sdk_trace_boundary(cfg)
+    common.chrono_boundary(cfg)
+    cfg.type_handlers.insert(0, _tms_types)
+    cfg.drop_types = getattr(cfg, "drop_types", set()) | {"std::lock_guard"}
+    for r in ("sdk::metrics::FilteredOrderedAttributeMap", "sdk::metrics::InstrumentDescriptor", "sdk::metrics::AggregationConfig", "sdk::metrics::CollectorHandle"):
+        cfg.opaque_records[r] = "xc_opaque"
+    cfg.type_map["sdk::metrics::Aggregation"] = "xc_aggr"
+    cfg.type_map["sdk::metrics::LastReportedMetrics"] = "xc_last_reported"
+    # auto x = std::move(list): some nodes carry only the sugared spelling of the type
+    cfg.type_map["typename std::remove_reference<list<shared_ptr<AttributesHashMapWithCustomHash<>>> &>::type"] = "xc_ahm_list"
+    cfg.type_map["typename std::remove_reference<unique_ptr<AttributesHashMapWithCustomHash<>> &>::type"] = "xc_ahm *"
+    if not hasattr(cfg, "seq_handlers"):
+        cfg.seq_handlers = {}
+    cfg.seq_handlers["std::list"] = lambda em, seq, targs: ("(%s).items" % seq, "(%s).count" % seq)
+    cfg.seq_handlers["xc_ahm_list"] = cfg.seq_handlers["std::list"]
+    unp = lambda r: (r["node"] if isinstance(r, dict) and r.get("xc_is_ptr") else r)
+    cfg.ext_q["DefaultAggregation::CreateAggregation"] = lambda em, node, recv, args: "xc_CreateAggregation()"
+    cfg.ext_q["Aggregation::Merge"] = lambda em, node, recv, args: "xc_Merge(%s, %s)" % (em.expr(unp(recv)), em.addr_of(args[0]))
+    for cls in ("AttributesHashMapWithCustomHash", "AttributesHashMap"):
+        cfg.ext_q[cls + "::Get"] = lambda em, node, recv, args: "xc_ahm_Get(%s, (const void *)%s)" % (em.expr(unp(recv)), em.addr_of(args[0]))
+        cfg.ext_q[cls + "::Set"] = lambda em, node, recv, args: "xc_ahm_Set(%s, (const void *)%s, %s)" % (em.expr(unp(recv)), em.addr_of(args[0]), em.expr(args[1]))
+        cfg.ext_q[cls + "::GetAllEnteries"] = _tms_enum
+    for U in ("std::unique_ptr::", "std::shared_ptr::", "std::__shared_ptr_access::"):
+        cfg.ext_methods[U + "operator->"] = lambda em, recv, args, n: recv
+        cfg.ext_methods[U + "operator*"] = lambda em, recv, args, n: "(*%s)" % recv
+        cfg.ext_methods[U + "get"] = lambda em, recv, args, n: recv
+        cfg.ext_methods[U + "operator bool"] = lambda em, recv, args, n: "(%s != NULL)" % recv
+    cfg.ctor_ext["std::unique_ptr"] = lambda em, node, args: (em.expr(args[0]) if args else "NULL")
+    cfg.ctor_ext["std::shared_ptr"] = lambda em, node, args: (em.expr(args[0]) if args else "NULL")
+    cfg.ext["new"] = lambda em, n: "xc_new_ahm()"
+    cfg.ext_methods["std::unordered_map::operator[]"] = lambda em, recv, args, n: "(*xc_last_reported_of())"
+
+
+def tms_lambda_contract(map_cap):
+    M = "(*xc_cp_%s)" % map_cap
+    return {"pre":
+        "__CPROVER_requires(__CPROVER_is_fresh(xc_cp_%s, sizeof(xc_ahm *)) && __CPROVER_is_fresh(%s, sizeof(xc_ahm)) && __CPROVER_is_fresh(self, sizeof(*self)))\n" % (map_cap, M) +
+        "__CPROVER_requires(__CPROVER_is_fresh(aggregation, sizeof(xc_aggr)))\n"
+        "__CPROVER_assigns(TMS_GHOSTS)\n"
+        # one lookup and one store in the merged map, under the delivered attribute set; exactly one Merge with the delivered aggregation
+        "__CPROVER_ensures(g_get_calls == 1 && g_set_calls == 1 && g_merge_calls == 1 && g_get_map == %s && g_set_map == %s && g_get_key == attributes && g_set_key == attributes)\n" % (M, M) +
+        "__CPROVER_ensures(g_merge_arg == aggregation && g_set_val == g_merge_ret)\n"
+        # a series already in the merged map is accumulated; a new one starts from a fresh neutral aggregation
+        "__CPROVER_ensures(g_get_ret != NULL ==> (g_merge_self == g_get_ret && g_create_calls == 0))\n"
+        "__CPROVER_ensures(g_get_ret == NULL ==> (g_merge_self == g_create_ret && g_create_calls == 1))\n"
+        "__CPROVER_ensures(__CPROVER_return_value)\n"}
+
+
+SL_UNREP = {"func": ("TemporalMetricStorage::buildMetrics", 6), "from": "merged_metrics", "to": "<reported", "cname": "buildMetrics_merge_unreported"}
+SL_CUM = {"func": ("TemporalMetricStorage::buildMetrics", 6), "from": "last_aggr_hashmap", "to": "#2", "cname": "buildMetrics_merge_cumulative"}
+contracts_tms = {"buildMetrics_merge_unreported__l1": tms_lambda_contract("merged_metrics"), "buildMetrics_merge_cumulative__l1": tms_lambda_contract("merged_metrics")}
+proofs_tms = [
+    Proof("Temporal_merge_unreported_callback", [SL_UNREP], enforce="buildMetrics_merge_unreported__l1",
+          desc="several deltas stashed for one collector add up: an existing series is accumulated, a new one starts from a fresh aggregation"),
+    Proof("Temporal_merge_cumulative_callback", [SL_CUM], enforce="buildMetrics_merge_cumulative__l1",
+          desc="cumulative reader: the previously reported totals are merged into the new deltas the same way"),
+]
+for _p in proofs_tms:
+    _p.tu = TU_TMS
+    _p.pre_c = TMS_PRE
+    _p.post_struct_c = TMS_POST
+    _p.spec_headers = ("xc_trace_boundary.h",)
+    _p.force_records = ("common::SystemTimestamp",)
+    _p.configure = _configure_tms
+    _p.own_config = True
+    _p.contracts = contracts_tms
+    _p.timeout = 300
+proofs += proofs_tms
+
+
+def refute_storage(mod, proof, violations, ix, workdir, seed):
+    """directed native search on a real MeterProvider with a counter and two readers: every plan of up to 7 steps (Add to set A / B, collect by
+    reader 1 / 2) under every combination of reader temporalities"""
+    import os, re as _re, subprocess
+    from . import c08 as _c08
+    srcs = _c08._repo_sources()
+    binpath = R.build_native("c06_storage_native", [os.path.join(R.core.HERE, "replay", "c06_storage_native.cc")] + [os.path.join(R.core.REPO, s) for s in srcs], ["-O1"])
+    full = subprocess.run([binpath, "search"], stdout=subprocess.PIPE, stderr=subprocess.STDOUT, text=True, timeout=900).stdout
+    m = _re.findall(r"^FOUND (.*)$", full, _re.M)
+    if not m:
+        return None
+    args = m[-1].split()
+    r = R.native_check("c06_storage_native", ["c06_storage_native.cc"], args, ["-O1"], repo_sources=srcs)
+    r["input"] = {"driver_args": args, "meaning": "plan <a = Add 1 to set A, b = Add 10 to set B, 1 / 2 = reader 1 / 2 collects> <reader 1 delta?> <reader 2 delta?>", "found_by": "directed native search (refute mode)"}
+    return r if r["reproduced"] else None
+
+
+for _p in proofs_tms:
+    refuters[_p.name] = refute_storage
